@@ -14,7 +14,8 @@
 (***************************************************************************)
 EXTENDS Integers, Sequences, FiniteSets, TLC, Json
 
-CONSTANTS YearLen, NYears, LB, MaxRuns, MaxLookups, Calendars, Reval
+CONSTANTS YearLen, NYears, LB, MaxRuns, MaxLookups, Calendars, Reval,
+          MinLookup      \* look-ups are for days >= MinLookup (0, or LB to keep look-backs inside the calendar)
 Days == 0..(YearLen * NYears - 1)
 Years == -1..(NYears - 1)      \* year -1: the (empty) year before the calendar, reached by look-backs
 YearOfDayMC(d) == IF d < 0 THEN -1 ELSE d \div YearLen
@@ -22,6 +23,7 @@ YearOfDayMC(d) == IF d < 0 THEN -1 ELSE d \div YearLen
 R == INSTANCE Rates WITH YearOfDay <- YearOfDayMC, FirstDay <- LAMBDA y : y * YearLen,
                          LastDay <- LAMBDA y : y * YearLen + YearLen - 1, Lookback <- LB, Revalidate <- Reval
 
+LookupDays == { d \in Days : d >= MinLookup }
 VARIABLES W, C, nruns, nlook, last, log
 vars == <<W, C, nruns, nlook, last, log>>
 
@@ -50,7 +52,7 @@ StartRun ==
 
 DoLookup ==
   /\ nlook < MaxLookups
-  /\ \E d \in Days :
+  /\ \E d \in LookupDays :
         LET e == R!Lookup(W, C, d) IN
         /\ C' = e.C
         /\ last' = [d |-> d, res |-> e.r, want |-> R!Ref(W, d), dlBefore |-> C.dl, diskBefore |-> C.disk, hadDisk |-> C.hasDisk, force |-> W.force]
